@@ -190,10 +190,10 @@ impl Monitor for C05 {
         4
     }
     fn gens(&self, tier: Tier) -> Vec<(&'static str, u64)> {
-        vec![("miri", 1), ("schedules", tier.pick(24, 600)), ("wide", tier.pick(4, 40)), ("stacks", tier.pick(8, 200))]
+        vec![("miri", 1), ("schedules", tier.pick(24, 600)), ("wide", tier.pick(4, 40)), ("stacks", tier.pick(8, 200)), ("images", tier.pick(6, 120))]
     }
     fn rule(&self) -> &'static str {
-        "case = a network with every layer kind and 1..4 channels (convolution, feedback block of convolution+deconvolution, deconvolution, max-pool, five dense layers, a skip connection across the block, two skip connections sharing their source, a loop connection over a dense layer, dropout on random layers), 24..64 training samples, batch 1..32, 2 epochs with 150..300 or 500..1300 validation inputs (2..21 chunks of 64, not a multiple of 64), followed by validate() and predict_batch() on the same inputs. The identical call is executed in a 1-thread pool without delays (reference) and in dedicated rayon pools of 2, 3, 4, 7, 16, 33 and 64 threads with the delay injector armed (random 0..300 us stalls at the entry of every per-sample forward pass, two delay seeds per pool size), plus once in an 8-thread pool while 16 busy threads starve the machine, plus a repetition of the reference. Every output - per-epoch train/validation loss and accuracy, all final weights, the validate() result, every predict_batch() output in order - must be bit-identical to the reference. Evidence that schedules differed: per training group the sample->worker assignment and the order in which the per-sample tasks started, taken from the event log; distinct = distinct (case, assignment/start-order) schedules observed. stacks: the same protocol on stacks of 3..6 convolutions / deconvolutions with 1..5 input channels and 1..5 filters each (more channels than filters, as many, fewer), kernels 1 or 3 and paddings 0..2 per layer (consecutive layers work on intermediate tensors of equal shape with different margins), max-pool, two dense layers. wide: the same protocol on networks whose dense layers have 4096..8200 inputs or outputs. Miri leg: /verif/miri under -Zmiri-many-seeds (4 seeds quick, 32 thorough): every seed must print the same bit patterns and Miri must report no undefined behaviour or data race."
+        "case = a network with every layer kind and 1..4 channels (convolution, feedback block of convolution+deconvolution, deconvolution, max-pool, five dense layers, a skip connection across the block, two skip connections sharing their source, a loop connection over a dense layer, dropout on random layers), 24..64 training samples, batch 1..32, 2 epochs with 150..300 or 500..1300 validation inputs (2..21 chunks of 64, not a multiple of 64), followed by validate() and predict_batch() on the same inputs. The identical call is executed in a 1-thread pool without delays (reference) and in dedicated rayon pools of 2, 3, 4, 7, 16, 33 and 64 threads with the delay injector armed (random 0..300 us stalls at the entry of every per-sample forward pass, two delay seeds per pool size), plus once in an 8-thread pool while 16 busy threads starve the machine, plus a repetition of the reference. Every output - per-epoch train/validation loss and accuracy, all final weights, the validate() result, every predict_batch() output in order - must be bit-identical to the reference. Evidence that schedules differed: per training group the sample->worker assignment and the order in which the per-sample tasks started, taken from the event log; distinct = distinct (case, assignment/start-order) schedules observed. stacks: the same protocol on stacks of 3..6 convolutions / deconvolutions with 1..5 input channels and 1..5 filters each (more channels than filters, as many, fewer), kernels 1 or 3 and paddings 0..2 per layer (consecutive layers work on intermediate tensors of equal shape with different margins), max-pool, two dense layers. wide: the same protocol on networks whose dense layers have 4096..8200 inputs or outputs. images: stacks that END in a convolution with 5..12 filters (image-shaped predictions and targets, so the objective sums over channels), trained without validation data (validate() needs a dense output layer) and evaluated by predict_batch(). Miri leg: /verif/miri under -Zmiri-many-seeds (4 seeds quick, 32 thorough): every seed must print the same bit patterns and Miri must report no undefined behaviour or data race."
     }
     fn assumptions(&self) -> Vec<&'static str> {
         vec![
@@ -223,9 +223,27 @@ impl Monitor for C05 {
                 return out;
             }
             c
+        } else if gen == "images" {
+            // a stack that ENDS in a spatial layer with 5..12 filters: predictions, targets and
+            // the objective's per-sample sums are image-shaped
+            let mut c = stack_net(&mut rng);
+            // drop the pool / dense tail of the stack
+            while matches!(c.layers.last(), Some(LCfg::Dense { .. }) | Some(LCfg::Pool { .. })) {
+                c.layers.pop();
+            }
+            let f = *rng.pick(&[5usize, 6, 8, 12]);
+            c.layers.push(LCfg::Conv { filters: f, kernel: (3, 3), stride: (1, 1), padding: (1, 1), dilation: (1, 1), act: *rng.pick(&[Act::Tanh, Act::Sigmoid, Act::Linear]), dropout: None });
+            if c.shapes().is_err() {
+                let mut out = Out::new("invalid image stack".into());
+                out.nontrivial = false;
+                return out;
+            }
+            c
         } else {
             everything_net(&mut rng)
         };
+        let image_out = gen == "images";
+        let out_shape = cfg.shapes().unwrap().last().unwrap().1;
         let params = if wide {
             // plain random values (repetition-free generation is quadratic in the tensor size)
             let mut ps = Vec::new();
@@ -243,22 +261,28 @@ impl Monitor for C05 {
         };
         let outputs = match cfg.layers.last().unwrap() {
             LCfg::Dense { n, .. } => *n,
-            _ => 1,
+            _ => out_shape.count(),
         };
         let n_train = if wide { 12 } else { rng.range(24, 64) };
         let batch = *rng.pick(&[1usize, 2, 4, 8, 13, 16, 32]);
-        let n_eval = if wide { 70 } else if rng.bool() { rng.range(150, 300) } else { rng.range(500, 1300) };
+        let n_eval = if wide || image_out { 70 } else if rng.bool() { rng.range(150, 300) } else { rng.range(500, 1300) };
         let n_eval = if n_eval % 64 == 0 { n_eval + 1 } else { n_eval };
         let train = random_data(&mut rng, cfg.input, n_train, outputs, Obj::MSE, false);
         let mut eval = random_data(&mut rng, cfg.input, n_eval, outputs, Obj::MSE, false);
         for x in eval.xs.iter_mut() {
             x[0] += 3.0;
         }
-        let eval = DataSet::new(eval.sh, eval.xs.clone(), eval.ts.clone());
+        let mut eval = DataSet::new(eval.sh, eval.xs.clone(), eval.ts.clone());
+        let mut train = train;
+        if image_out {
+            // image-shaped targets
+            train.t_tensors = train.ts.iter().map(|t| tensor_of(out_shape, t)).collect();
+            eval.t_tensors = eval.ts.iter().map(|t| tensor_of(out_shape, t)).collect();
+        }
         let opt = gen_optimizer(&mut rng, (idx % 5) as usize);
         let desc = format!("{} | {} | train {} batch {} eval {}", cfg.describe(), opt.describe(), n_train, batch, n_eval);
         let mut out = Out::new(desc.clone());
-        out.count(if wide { "wide_layer_cases" } else if gen == "stacks" { "stack_cases" } else { "schedule_cases" }, 1);
+        out.count(if wide { "wide_layer_cases" } else if gen == "stacks" { "stack_cases" } else if image_out { "image_output_cases" } else { "schedule_cases" }, 1);
         let ttags = train.tags();
         let (xr, tr) = (train.x_refs(), train.t_refs());
         let (vxr, vtr) = (eval.x_refs(), eval.t_refs());
@@ -272,9 +296,11 @@ impl Monitor for C05 {
             let session = new_session();
             let (r, events) = in_pool(threads, session, delay_seed, delay_us, || {
                 guard(|| {
-                    let validation: Option<(&Vec<&Tensor>, &Vec<&Tensor>, i32)> = Some((&vxr, &vtr, 100));
+                    // (validate() needs a dense output layer: image-shaped outputs are trained
+                    // without validation data and evaluated by predict_batch only)
+                    let validation: Option<(&Vec<&Tensor>, &Vec<&Tensor>, i32)> = if image_out { None } else { Some((&vxr, &vtr, 100)) };
                     let (tl, vl, va) = net.learn(&xr, &tr, validation, batch, 2, None);
-                    let (l, a) = net.validate(&vxr, &vtr, 0.1);
+                    let (l, a) = if image_out { (0.0, 0.0) } else { net.validate(&vxr, &vtr, 0.1) };
                     let pb = net.predict_batch(&vxr);
                     let mut bits: Vec<u32> = Vec::new();
                     for v in tl.iter().chain(vl.iter()).chain(va.iter()) {
@@ -353,7 +379,8 @@ impl Monitor for C05 {
                 Ok(o) => {
                     if o != refbits {
                         let k = o.bits.iter().zip(refbits.bits.iter()).position(|(a, b)| a != b).unwrap_or(0);
-                        let what = if k < 6 { "per-epoch loss / accuracy" } else if k < 8 { "validate() result" } else if k < 8 + n_eval * outputs { "predict_batch() output" } else { "final weights" };
+                        let head = if image_out { 2 } else { 6 };
+                        let what = if k < head { "per-epoch loss / accuracy" } else if image_out && k < head + 2 { "validate() result" } else if image_out && k < head + 2 + n_eval * outputs { "predict_batch() output" } else if image_out { "final weights" } else if k < 6 { "per-epoch loss / accuracy" } else if k < 8 { "validate() result" } else if k < 8 + n_eval * outputs { "predict_batch() output" } else { "final weights" };
                         let _ = outputs;
                         out.viol(
                             &format!("determinism:differs:{}", what.split(' ').next().unwrap_or("?")),
